@@ -523,15 +523,15 @@ func (s *Scheme) Sign(c context.Context, msgHash []byte, topic string) ([]byte, 
 		s.Logger.Infof("Synchronizing on pre-signing topic %s with %v", hex.EncodeToString(syncTopic)[:8], signers)
 
 		err = sync.Synchronize(ctx, func([]uint16) {
-			defer cleanupSyncTopic()
-			defer cleanup()
-
 			s.Logger.Debugf("Time elapsed to ensure all signers for topic %s are ready: %v", topicHashText[:8], time.Since(start2))
 
 			signature, err := s.runSigningProtocol(ctx, signingProtocol, msgHash)
 			if err == nil {
 				atomic.StoreUint32(&signedSuccessfully, 1)
 			}
+			// Release the topic before the result is published, so that the caller may sign on it again at once
+			cleanupSyncTopic()
+			cleanup()
 			resultChan <- struct {
 				sig []byte
 				err error
@@ -543,6 +543,7 @@ func (s *Scheme) Sign(c context.Context, msgHash []byte, topic string) ([]byte, 
 				s.Logger.Warnf("Failed synchronizing on pre-signing topic: %v", err)
 			}
 			cleanupSyncTopic()
+			cleanup()
 		}
 	}
 
@@ -550,6 +551,9 @@ func (s *Scheme) Sign(c context.Context, msgHash []byte, topic string) ([]byte, 
 	if err != nil {
 		return nil, err
 	}
+
+	// However Sign returns (result, error, expired context), nothing of this session stays registered
+	defer cleanup()
 
 	go func() {
 		if err := sync.Synchronize(ctx, initializeSigningInstance, topicHash, s.Threshold+1, SyncInterval); err != nil {
